@@ -101,9 +101,6 @@ type connState struct {
 	// started with until its reply has been sent and cleaned up.
 	readBufs atomic.Pointer[readBuffers]
 
-	// baseVersion is the version of 9P protocol.
-	baseVersion baseVersion
-
 	// version is the agreed upon version X of 9P2000.L.Google.X.
 	// version 0 implies 9P2000.L.
 	version uint32
